@@ -235,6 +235,33 @@ pub fn run(ctx: &mut Ctx) {
             ctx.check("key:size-probe:object", &var(k), &obj);
         }
     }
+    // characters that other path syntaxes treat as separators or escapes (JSON pointer, JSONPath,
+    // jq, URL encoding ...) are ordinary key characters here: flat member vs nested look-alike
+    for c in ["/", "~", "~0", "~1", "$", "[", "]", "[0]", "*", "#", "%", "%2E", ":", "@", "'", "\"", " ", "|", ",", ";", "=", "&", "?", "!", "^", "(", ")", "{", "}", "<", ">", "+", "-", "_", "\\.", "\\\\"] {
+        if !ctx.mine() {
+            continue;
+        }
+        // the key as a path segment: dot and backslash are written escaped
+        let seg = format!("a{}b", c);
+        let raw_key: String = match crate::refmodel::split_path(&seg) {
+            Some(v) if v.len() == 1 => v[0].clone(),
+            _ => continue,
+        };
+        let inner_key = raw_key.trim_start_matches('a').to_string();
+        for data in [
+            json!({ raw_key.clone(): "flat", "a": { "b": "nested", inner_key.clone(): "n2" }, "b": 1 }),
+            json!({ "a": { "b": "nested", inner_key.clone(): "n2" }, "b": 1 }),
+            json!({ raw_key.clone(): null, "a": { "b": "nested" } }),
+            json!({ "w": [{ raw_key.clone(): "in-array", "a": ["x", "y"] }], "a": { "b": ["p", "q"] } }),
+            json!([{ raw_key.clone(): 0 }]),
+        ] {
+            for pth in [seg.clone(), format!("a.{}", seg), format!("w.0.{}", seg), format!("0.{}", seg), format!("{}.b", seg), format!("a.{}b", c)] {
+                ctx.edge();
+                ctx.check("path:separator-like-characters", &var(json!(pth)), &data);
+                ctx.check("path:separator-like-characters:default", &var(json!([pth, "dflt"])), &data);
+            }
+        }
+    }
     // (b) key operand kinds
     let mut ints: Vec<Value> = al::ints_small().into_iter().map(|i| json!(i)).collect();
     ints.extend(al::ints_extreme());
